@@ -270,7 +270,7 @@ func r15_6(c *Ctx, r *Report) {
 
 func r15_7(c *Ctx, r *Report) {
 	const rule = "R15.7"
-	r.rule(rule, "The month step is exact. SolarMonth.Next(n) builds the month number (12*year + month - 1 + n) split back into (year, month 1..12): followed by the evaluator for every start month 1..12 and every n in -40..40, the arguments of the NewSolarMonthFromYm call it returns are compared with that formula. Seasons, half-years and Solar.NextMonth step through this function (R15.3, R04.7).")
+	r.rule(rule, "The month step is exact. SolarMonth.Next(n) builds the month number (12*year + month - 1 + n) split back into (year, month 1..12): followed by the evaluator for every start month 1..12 and every n in -40..40, the arguments of the NewSolarMonthFromYm call it returns are compared with that formula. Seasons, half-years and Solar.NextMonth step through this function (R15.3, R04.8).")
 	fn := c.Fn(r, rule, "calendar.(*SolarMonth).Next")
 	if fn == nil || len(fn.Params) != 2 {
 		return
